@@ -54,7 +54,7 @@ def check_pitch_trim(chk, MX):
     if rng.random() < 0.3:
         kw["relaxation"] = round(rng.uniform(0.6, 1.0), 2)
     sc = gen.build_scene(MX, sd, [("a", ac, st, cs)])
-    if rng.random() < 0.3 and kw.get("CL") != 0.0:
+    if (getattr(chk, "round", 0) % 4 == 2 or rng.random() < 0.3) and kw.get("CL") != 0.0:      # (enumerated in round 2)
         # one of the two targets is already met at the start (lift balanced, moment not): both conditions must still hold on return
         try:
             kw["CL"] = float(sc.solve_forces(dimensional=False, non_dimensional=True)["a"]["total"]["CL"])
